@@ -1472,7 +1472,14 @@ func (ro *RedisOutput) bisyncStartPoint(ctx context.Context, runIDs []string) (S
 			}
 			// Recovery may consume the first post-snapshot journal records to rebuild
 			// the durable frontier. Once that frontier is selected, those journal
-			// keys are stale and should not survive as residual metadata.
+			// keys are stale and should not survive as residual metadata. The rebuilt
+			// frontier must be durable before its journal is deleted, otherwise the
+			// next start (or a crash in the middle of the cleanup) falls back behind it.
+			if snapshot == nil || frontier.UnitSeq > snapshot.UnitSeq {
+				if err := checkpoint.SaveBisyncFrontierSnapshot(cli, snapshotKey, frontier); err != nil {
+					return sp, 0, false, err
+				}
+			}
 			ro.cleanupRecoveredBisyncCommitRecords(cli, checkpointName, frontier, records)
 			ro.logger.Infof("bisync startpoint parallel selected: checkpoint(%s), start(%+v), seq(%d)", checkpointName, sp, frontier.UnitSeq)
 			return sp, frontier.UnitSeq, true, nil
